@@ -31,6 +31,10 @@ public:
 		for (const auto& import : imports) {
 			ExpressionResult res = import->Evaluate(frame);
 			Object::Ptr obj = res.GetValue();
+
+			if (!obj)
+				BOOST_THROW_EXCEPTION(ScriptError("Imported namespace is null: 'using' requires an object.", debugInfo));
+
 			if (obj->HasOwnField(name)) {
 				*result = obj;
 				return true;
